@@ -196,7 +196,9 @@ def norm_value(name, v):
 # ---- (b) objects ---------------------------------------------------------------------------------------------
 
 TEXTS = ["plain", "with\\, comma and\\; semicolon", "line\\nbreak", "back\\\\slash", "ünïcödé €", "colon: inside",
-         "a" * 90, "long " + "wörd " * 30, "trailing blank ", "quote \"inside\"", "equals=sign", "tab\there"]
+         "a" * 90, "long " + "wörd " * 30, "trailing blank ", "quote \"inside\"", "equals=sign", "tab\there",
+         # characters Python's str.splitlines() treats as line ends but iCalendar does not
+         "Budget\u2028 review", "para\u2029graph", "next\u0085line", "form\u000cfeed kept?"[:4] + " feed"]
 
 
 def gen_event(rng, uid, with_tz=False, override=False):
@@ -349,6 +351,16 @@ def object_level(ctx):
                 ctx.violation("REPORT data differs from the GET body", case)
             if retag != etag1:
                 ctx.violation("REPORT getetag differs from the PUT ETag", case)
+            # ... and the whole-collection export carries the same object
+            ste, _, export = app.request("GET", coll, login="u:pw")
+            exp_root = parse_content(export) if ste == 200 else ("ROOT", [], [])
+            exp_comps = exp_root[2] if book else (exp_root[2][0][2] if exp_root[2] else [])
+            mine = sorted(canon(c, False) for c in exp_comps if any(n_ == "UID" and v == uid for n_, p_, v in c[1]))
+            up_root = parse_content(body)
+            up_comps = up_root[2] if book else up_root[2][0][2]
+            want = sorted(canon(c, False) for c in up_comps if any(n_ == "UID" and v == uid for n_, p_, v in c[1]))
+            if mine != want:
+                ctx.violation("the whole-collection export carries the object differently from the upload", case)
             # without the cache entry the same bytes are served
             shutil.rmtree(os.path.join(app.folder, "collection-root", "u", coll.strip("/").split("/")[1], ".Radicale.cache", "item"), ignore_errors=True)
             st2, hd2, served2 = app.request("GET", coll + href, login="u:pw")
